@@ -6,7 +6,7 @@ ID = 'C09'
 LEDGER_FILES = ['a5/core/compact.py', 'a5/core/serialization.py']
 MUST_ENTER = [('a5/core/compact.py', 'compact'), ('a5/core/serialization.py', 'is_first_child'), ('a5/core/serialization.py', 'get_stride')]
 RULE = ('antichain inputs X (duplicates allowed, any order): the same exhaustive bounded sub-hierarchy family as C08 (868,428 quick / '
-        '18.5M thorough antichains), all orders of <=6-cell cases, the antichain part of random large mixed-level sets. Oracle: '
+        '18.5M thorough antichains), all orders of <=6-cell cases, the antichain part of random large mixed-level sets; spines (a complete partition of the world or of a random cell refined along one path for up to 30 levels, complete or with one leaf removed / partly refined); a share of the lists is passed sorted ascending / descending. Oracle: '
         'compact(X) has no repeated id, equals canon(X) of the set model as a set (so no complete sibling group is left), is the same '
         'set for a reshuffled / duplicated presentation and compact(compact(X)) == compact(X) as a set. distinct = distinct argument '
         'lists; non-trivial = at least 2 distinct cells')
@@ -93,6 +93,12 @@ def run_shard(spec, ctx):
             eval_case(a5, tree, L, ctx, {'cells': L}, extra=True)
         ctx.sample({'cells': L, 'compact': a5.compact(list(L))})
     elif spec['part'] == 'random':
+        for _ in range(40 * spec['n']):
+            X, root = cc.spine_case(rnd, a5, gen)
+            L = cc.presentations(rnd, X, tree, False)
+            ctx.case(tuple(L), nontrivial=True)
+            ctx.count('spine_cases')
+            eval_case(a5, tree, L, ctx, {'cells': L}, extra=True)
         for _ in range(spec['n']):
             L = list(tree.antichain(cc.random_large(rnd, a5, gen)))
             L += [rnd.choice(L) for _ in range(5)]
